@@ -2,6 +2,4 @@ package c17
 
 import "verif/internal/fw"
 
-func runRLPX(c *fw.Ctx)   {}
-func runAqua(c *fw.Ctx)   {}
 func runServer(c *fw.Ctx) {}
